@@ -83,7 +83,7 @@ class Encrypt(Machine):
             "clock": s.choice(["advancing", "frozen", "coarse"]),
             "clock_step": s.choice([0.0, 0.001, 1.0, 3600.0]),
             "faults_enabled": (not long_history) and s.chance(0.6),
-            "fault_kinds": s.subset(["crash", "enospc", "eio_read", "short_read", "short_write", "open_fail"], 0.6),
+            "fault_kinds": s.subset(["crash", "enospc", "eio_read", "short_read", "short_write", "write_fail", "open_fail"], 0.6),
             "rerun_after_crash": s.chance(0.8),
             "stale": s.chance(0.5),
         }
